@@ -11,7 +11,11 @@
                 (individual i, column c, genotype g) with err = relative deviation of
                 the code's likelihood in units of 10^-12 (capped at 2*10^9; for a
                 reference of exactly 0 the absolute value) and ok = (err <= tol).
-                nInd, m, nedges (size of TLC's graph), tol.
+                nInd, m, nedges (size of TLC's graph), tol; maxcov = largest number of
+                reads active in one column (the shapes reach 12: the column's Gray code
+                then runs through 4096 bipartitions), deepblank = some column with >= 9
+                active reads has a BLANK entry (a read spanning the column without
+                covering it) in front of a covering read at index >= 8.
      Determine  one direct call determine_genotype(<<x,y,z>>/G, thr/G) on a pair
                 enumerated by TLC (Gen_C08): gt = ALT count or -1.
      Run        one in-process run of `whatshap genotype` on a materialised world:
@@ -45,7 +49,8 @@ JudgePosterior(e) ==
              /\ \A i \in 1..e.nInd, c \in 1..e.m, g \in Genos :
                    \E x \in DOMAIN e.entries : e.entries[x].i = i /\ e.entries[x].c = c /\ e.entries[x].g = g
              /\ \A x \in DOMAIN e.entries : e.entries[x].ok /\ e.entries[x].err >= 0 /\ e.entries[x].err <= e.tol
-             /\ e.tol = 1000 /\ e.nedges > 0)
+             /\ e.tol = 1000 /\ e.nedges > 0
+             /\ e.maxcov \in 0..e.nreads /\ (e.deepblank => e.maxcov >= 9))
 
 JudgeDetermine(e) ==
     LET u == Scale \div e.G
